@@ -250,6 +250,32 @@ theorem rs_unique_nearest (F : GF) (h : FieldOK F) (c c' v : List Nat) (r t : Na
   have := weight_triangle c v c' hl1 hl2
   omega
 
+/-- the parity symbols are uniquely determined by the zero-syndrome condition: any `r` symbols `par'` that make
+    `data ++ par'` a zero-syndrome word (length ≤ size-1) are the symbols `Encode` appends.  So the clause
+    "appends parity such that the whole word has zero syndromes" fixes the encoder's output completely. -/
+theorem rs_encode_unique (F : GF) (h : FieldOK F) (data par' : List Nat) (r : Nat)
+    (hk : data ≠ []) (hr : 0 < r) (hd : InField F data) (hp : InField F par') (hpl : par'.length = r)
+    (hn : data.length + r ≤ F.size - 1) (hb : r + F.base ≤ F.size)
+    (hz : ZeroSyndromes F (data ++ par') r) :
+    encode F data r = .ok par' := by
+  obtain ⟨par, h1, h2, h3, h4⟩ := rs_encode_api F h data r hk hr hd hb
+  obtain ⟨w, hw1, _, _, hw4⟩ := rs_encode_zero_syndromes F h data r hk hr hd hb
+  rw [h2] at hw1
+  have hw : w = data ++ par := (Except.ok.inj hw1).symm
+  rw [hw] at hw4
+  have heq : data ++ par = data ++ par' := by
+    apply rs_min_distance F h (data ++ par) (data ++ par') r (by simp [h3, hpl]) (by simp [h3]; omega)
+      (InR.append hd h4) (InR.append hd hp) hw4 hz
+    -- the two words agree on the data part
+    have hzip : List.zipWith (· ^^^ ·) (data ++ par) (data ++ par') =
+        List.zipWith (· ^^^ ·) data data ++ List.zipWith (· ^^^ ·) par par' :=
+      List.zipWith_append (by rfl)
+    rw [hzip, weight_append, weight_zipWith_self, Nat.zero_add]
+    have := weight_le_length (List.zipWith (· ^^^ ·) par par')
+    rw [List.length_zipWith, h3, hpl, Nat.min_self] at this
+    exact this
+  rw [h1, List.append_cancel_left heq]
+
 /-- (3) one corrupted symbol — any position, any non-zero error magnitude — is restored exactly, for every
     code word length `n ≤ size - 1` and every parity count `r ≥ 2` (so `⌊r/2⌋ ≥ 1`), generator base 0 or 1 -/
 theorem rs_corrects_single (F : GF) (h : FieldOK F) (hb : F.base ≤ 1) (c : List Nat) (r j e : Nat)
